@@ -8,8 +8,23 @@ props = [json.loads(l) for l in open(os.path.join(V, "properties.jsonl"))]
 
 CHECKS = {
     "C01": dict(cat="exploration", tech="runtime monitoring: Go-runtime deadlock oracle + result-shape monitor over generated workflows, outcome vectors and injected delays",
-                text="Held on every executed run of the explored programs/outcome vectors/delay plans: each returned exactly one declared output or an error and no child process deadlocked. Exploration, not exhaustive: liveness is restated as 'returns before every goroutine is blocked'.",
+                text="Held on every executed run of the explored programs/outcome vectors/delay plans: each returned exactly one declared output or an error and no child process deadlocked (apart from listed known findings). Exploration, not exhaustive: liveness is restated as 'returns before every goroutine is blocked'.",
                 note="Trusted: Go runtime deadlock detector, scripted plugin (harness/splugin), reference semantics (vlib/ref.py) for deciding which runs must end by themselves.", ref="8/C01"),
+    "C02": dict(cat="exploration", tech="runtime monitoring: offline ordering+value monitor over the plugin-boundary event log, gates forcing consumer-first schedules, injected delays",
+                text="On every explored run, each plugin execution / deployment was preceded in the log by the production of everything it refers to and received exactly the reference evaluation of its field trees over the logged producer values. Sampled programs and schedules only.",
+                note="Trusted: event log sequence numbers (assigned under one lock at the plugin boundary), unique provenance of scripted values, vlib/ref.py mini evaluator.", ref="8/C02"),
+    "C03": dict(cat="exploration", tech="runtime monitoring: reference-model oracle (producible-set fixpoint) over returned (id,data,err); outcome vectors enumerated for small shapes",
+                text="Every explored run returned a result inside the set the declarative meaning allows (unique producible output, data equal to the reference evaluation, error iff nothing producible). Outcome vectors are exhaustive for 6 small shapes in the thorough tier, sampled otherwise.",
+                note="Trusted: vlib/ref.py (Appendix B). Error texts are not compared.", ref="8/C03"),
+    "C04": dict(cat="exploration", tech="runtime monitoring: executed-set monitor at the plugin boundary vs reference may-run set; positional failure enumeration; two-hop stop-before-start",
+                text="No plugin code was observed executing when the reference says it must not (failed/crashed/disabled prerequisite, disabled step, stop before start) on all enumerated positions/kinds and sampled programs with delays.",
+                note="Trusted: vlib/ref.py; one-hop stop_if timing is genuinely ambiguous and not asserted.", ref="8/C04"),
+    "C05": dict(cat="fault_enumeration", tech="runtime monitoring: deploy/close conservation + goroutine census (runtime.Stack) after every exit path; enumerated deployment/protocol faults and cancellation instants",
+                text="For every enumerated (step, phase, fault) and cancellation instant, at execute-return / prepare-return all deployed plugins were closed and no engine/ATP goroutine survived the settle window. Enumeration is complete only over the listed fault kinds, shapes and logged event indices.",
+                note="Trusted: harness deployer counts, goroutine census by frame package; third-party deployers out of scope.", ref="8/C05"),
+    "C06": dict(cat="fault_enumeration", tech="runtime monitoring: cancel at every logged event index / certain event / schedule point; signal-reachability + conservation monitors, deadlock oracle, bounded-time re-check",
+                text="For every enumerated cancellation instant the run returned (no deadlock), every plugin executing at cancellation received the cancel signal before being closed (or was closed if it has no handler), nothing stayed open, outputs had produced dependencies, and the stated time bound held.",
+                note="Time bound is wall-clock with slack and isolated re-run; other oracles are logical.", ref="8/C06"),
 }
 
 NOT_APPLICABLE = {}
